@@ -4,6 +4,7 @@ go 1.25.0
 
 require (
 	github.com/cespare/xxhash/v2 v2.3.0
+	github.com/coder/websocket v1.8.14
 	github.com/gobwas/ws v1.4.0
 	github.com/jensneuse/abstractlogger v0.0.4
 	github.com/wundergraph/graphql-go-tools/execution v0.0.0
@@ -15,7 +16,6 @@ require (
 	connectrpc.com/connect v1.19.2 // indirect
 	github.com/bufbuild/protocompile v0.14.1 // indirect
 	github.com/buger/jsonparser v1.1.2 // indirect
-	github.com/coder/websocket v1.8.14 // indirect
 	github.com/davecgh/go-spew v1.1.2-0.20180830191138-d8f796af33cc // indirect
 	github.com/gobwas/httphead v0.1.0 // indirect
 	github.com/gobwas/pool v0.2.1 // indirect
